@@ -100,6 +100,17 @@ func (fsbs *filesystemBackstore) pickLatestAssertion(assertType *AssertionType, 
 	return a, nil
 }
 
+// escapeComp escapes a primary key value for use as a single path component:
+// url.QueryEscape takes care of '/' and of the wildcard characters, but it
+// leaves "." and ".." alone, which name directories rather than entries.
+func escapeComp(comp string) string {
+	q := url.QueryEscape(comp)
+	if q == "." || q == ".." {
+		q = strings.Replace(q, ".", "%2E", -1)
+	}
+	return q
+}
+
 // diskPrimaryPathComps computes the components of the path for an assertion.
 // The path will look like this: (all <comp> are query escaped)
 // <primaryPath0>/<primaryPath1>...[/0:<optPrimaryPath0>[/1:<optPrimaryPath1>]...]/<active>
@@ -115,7 +126,7 @@ func diskPrimaryPathComps(assertType *AssertionType, primaryPath []string, activ
 	noptional := -1
 	for i, comp := range primaryPath {
 		defl := assertType.OptionalPrimaryKeyDefaults[assertType.PrimaryKey[i]]
-		qvalue := url.QueryEscape(comp)
+		qvalue := escapeComp(comp)
 		if defl != "" {
 			noptional++
 			if comp == defl {
@@ -242,7 +253,7 @@ func (fsbs *filesystemBackstore) searchOptional(assertType *AssertionType, kopt,
 	case assertType.OptionalPrimaryKeyDefaults[k]:
 		return fsbs.searchOptional(assertType, kopt+1, pattPos, firstOpt, diskPattern, headers, foundCb, maxFormat)
 	default:
-		diskPattern[pattPos] = fmt.Sprintf("%d:%s", kopt-firstOpt, url.QueryEscape(keyVal))
+		diskPattern[pattPos] = fmt.Sprintf("%d:%s", kopt-firstOpt, escapeComp(keyVal))
 		return fsbs.searchOptional(assertType, kopt+1, pattPos+1, firstOpt, diskPattern, headers, foundCb, maxFormat)
 	}
 }
@@ -259,7 +270,7 @@ func (fsbs *filesystemBackstore) Search(assertType *AssertionType, headers map[s
 		if keyVal == "" {
 			diskPattern[i] = "*"
 		} else {
-			diskPattern[i] = url.QueryEscape(keyVal)
+			diskPattern[i] = escapeComp(keyVal)
 		}
 	}
 	pattPos := n - nopt
@@ -284,7 +295,7 @@ func (fsbs *filesystemBackstore) SequenceMemberAfter(assertType *AssertionType, 
 	n := len(assertType.PrimaryKey)
 	diskPattern := make([]string, n+1)
 	for i, k := range sequenceKey {
-		diskPattern[i] = url.QueryEscape(k)
+		diskPattern[i] = escapeComp(k)
 	}
 	seqWildcard := "#>" // ascending sequence wildcard
 	if after == -1 {
